@@ -167,10 +167,46 @@ def guards_of(fi, nid):
         in_t = nid in reach_t
         in_f = nid in reach_f
         if in_t and not in_f:
-            out.append((n.ast.test, True, n.id))
+            out.append(strip_not(n.ast.test, True) + (n.id,))
         elif in_f and not in_t:
-            out.append((n.ast.test, False, n.id))
+            out.append(strip_not(n.ast.test, False) + (n.id,))
     return out
+
+
+def strip_not(test, pol):
+    """(test, polarity) with leading `not`s folded into the polarity."""
+    while isinstance(test, ast.UnaryOp) and isinstance(test.op, ast.Not):
+        test = test.operand
+        pol = not pol
+    return (test, pol)
+
+
+def if_arms(if_ast):
+    """(test, true-arm statements, false-arm statements) of an ast.If with leading `not`s removed."""
+    test, pol = strip_not(if_ast.test, True)
+    return (test, if_ast.body, if_ast.orelse) if pol else (test, if_ast.orelse, if_ast.body)
+
+
+def aug_like(st):
+    """(target name, operator class, value ast) for `x op= v` and for `x = x op v` on a plain name."""
+    if isinstance(st, ast.AugAssign) and isinstance(st.target, ast.Name):
+        return st.target.id, type(st.op), st.value
+    if isinstance(st, ast.Assign) and len(st.targets) == 1 and isinstance(st.targets[0], ast.Name) and isinstance(st.value, ast.BinOp) and \
+            isinstance(st.value.left, ast.Name) and st.value.left.id == st.targets[0].id:
+        return st.targets[0].id, type(st.value.op), st.value.right
+    return None
+
+
+def resolve_ast(fl, node, nid, depth=0):
+    """Follow a Name through single, path-free assignments to the defining expression.
+    Returns (ast expression, cfg node id where it is evaluated)."""
+    while isinstance(node, ast.Name) and node.id in fl.locals and depth < 4:
+        ds = [d for d in fl.reaching(node.id, nid) if d.kind != "unbound"]
+        if len(ds) != 1 or ds[0].kind != "assign" or ds[0].path:
+            break
+        node, nid = ds[0].value, ds[0].node
+        depth += 1
+    return node, nid
 
 
 def _arm_nodes(cfg, ifnode, label):
